@@ -217,15 +217,32 @@ def chain_sig(chain):
 # ---------------------------------------------------------------------------
 # the two observation paths
 # ---------------------------------------------------------------------------
-def run_paths(arr, chain):
-    """Returns (direct, filed): each ('ok', decoded ndarray) or ('exc', phase, class name);
-    filed carries additionally the encoding-equality flag and the packed bytes."""
+def pack_cost(data, byte_count):
+    """Number of elements IntegerPacking would emit for what actually arrives at it (after a possible
+    wrap to 32 bit).  Cost guard only: an earlier stage may have produced values the model did not
+    foresee (that is reported as a violation of that stage where it is observable)."""
+    if not isinstance(data, np.ndarray) or data.dtype.kind not in "iu" or data.size == 0:
+        return 0
+    w = data.astype(np.int64)
+    w = ((w + 2**31) % 2**32) - 2**31
+    return int(np.abs(w).sum() // (127 if byte_count == 1 else 32767)) + len(w)
+
+
+def run_paths(arr, chain, allow_big=False):
+    """Returns (direct, filed, packed): direct/filed are ('ok', decoded ndarray[, encodings equal]) or
+    ('exc', phase, class name); (None, None, None) when the cost guard stopped the case."""
     env = _enc()
     E, pdbx, msgpack = env["E"], env["pdbx"], env["msgpack"]
     encs = [build(s) for s in chain]
     direct = None
     try:
-        data = E.encode_stepwise(arr, encs)
+        # encode_stepwise, stage by stage, so that the cost guard can look at what enters a packing stage
+        # (encode_stepwise itself runs inside BinaryCIFData.serialize below)
+        data = arr
+        for spec, enc in zip(chain, encs):
+            if spec[0] == "P" and pack_cost(data, spec[1]["byte_count"]) > M.PACK_CAP and not allow_big:
+                return None, None, None
+            data = enc.encode(data)
     except Exception as e:  # noqa: BLE001
         direct = ("exc", "encode", type(e).__name__)
         encs = [build(s) for s in chain]
@@ -273,6 +290,8 @@ def int_features(vals, dtype, v):
     if v.ba_vs_packed:
         # one root cause whatever else is special about the input
         return "bytearray_type_differs_from_packed_type"
+    if v.pp:
+        return "packing_of_packed_array_with_multi_element_value"
     f = [dtype]
     if not vals:
         f.append("empty")
@@ -286,6 +305,8 @@ def culprit(chain, v):
     invert its own (model-computed) input when used alone; the whole chain if every stage does."""
     if v.cls != "accept" or len(v.inputs) != len(chain):
         return chain_sig(chain)
+    if v.pp:
+        return "P+P"
     for spec, (ivals, dt) in zip(chain, v.inputs):
         try:
             enc = build(spec)
@@ -344,7 +365,10 @@ def int_case(ctx, dtype, vals, chain, group, allow_big=False):
     if not ctx.journal(case):
         return
     arr = np.array(vals, dtype=dtype)
-    direct, filed, packed = run_paths(arr, chain)
+    direct, filed, packed = run_paths(arr, chain, allow_big)
+    if direct is None:
+        ctx.count("skipped_pack_cap_observed")
+        return
     compared, refused = judge_int(ctx, case, vals, dtype, chain, v, direct, filed)
     ctx.count({"accept": "accepted", "refuse_or_exact": "refusable", "either": "unspecified"}[v.cls])
     if refused:
@@ -614,6 +638,9 @@ def float_case(ctx, dtype, xs, chain, group):
         return
     arr = np.array(xs, dtype=dtype)
     direct, filed, packed = run_paths(arr, chain)
+    if direct is None:
+        ctx.count("skipped_pack_cap_observed")
+        return
     compared = refused = False
     for path, res in (("direct", direct), ("file", filed)):
         if res[0] == "exc":
